@@ -246,7 +246,16 @@ func assignOne(destValue reflect.Value, taken any, to string) (reflect.Value, er
 		originalDestValue = destValue
 		parentMap         reflect.Value
 		parentKey         string
+		// map elements of struct type are worked on as addressable copies: each is written back into its map once
+		// the leaf has been set, innermost first
+		writeBacks []func()
 	)
+	done := func() (reflect.Value, error) {
+		for i := len(writeBacks) - 1; i >= 0; i-- {
+			writeBacks[i]()
+		}
+		return originalDestValue, nil
+	}
 
 	for {
 		path := toPaths[0]
@@ -281,7 +290,7 @@ func assignOne(destValue reflect.Value, taken any, to string) (reflect.Value, er
 					parentMap.SetMapIndex(reflect.ValueOf(parentKey), destValue)
 				}
 
-				return originalDestValue, nil
+				return done()
 			}
 
 			field, err := checkAndExtractToField(path, destValue, toSet)
@@ -299,7 +308,7 @@ func assignOne(destValue reflect.Value, taken any, to string) (reflect.Value, er
 				parentMap.SetMapIndex(reflect.ValueOf(parentKey), destValue)
 			}
 
-			return originalDestValue, nil
+			return done()
 		}
 
 		if destValue.Type() == reflect.TypeOf((*any)(nil)).Elem() {
@@ -363,7 +372,9 @@ func assignOne(destValue reflect.Value, taken any, to string) (reflect.Value, er
 		instantiateIfNeeded(field)
 
 		if parentMap.IsValid() {
-			parentMap.SetMapIndex(reflect.ValueOf(parentKey), ptrValue)
+			// the element is a copy: what is set below this field has to reach the map as well
+			m, k, elem := parentMap, reflect.ValueOf(parentKey), ptrValue
+			writeBacks = append(writeBacks, func() { m.SetMapIndex(k, elem) })
 			parentMap = reflect.Value{}
 			parentKey = ""
 		}
